@@ -489,3 +489,17 @@ ALL = [t_bind, t_bind_const, t_index_nested, t_slice, t_slice_flat, t_construct,
        c_signed_zero, c_signed_zero_loop, c_fold, c_declared, c_stochastic]
 
 NO_ALIAS_CHECK = {'t_call_ident'}
+
+# deterministic reproductions of the findings this corpus was written around (always run, before the random inputs):
+# C13-F1 (+0/-0 merged at a phi), C13-F2 (list constant kept across a mutation through an alias / a callee),
+# C13-F3 (zip / assert after a conditional early return), C13-F5 (c_stochastic: no arguments, run repeatedly)
+FIXED = {
+    'c_signed_zero': [(True,), (False,)],
+    'c_signed_zero_loop': [(2.0,), (0.0,)],
+    't_bind_const': [(5.0,)],
+    't_construct_const': [(5.0,)],
+    't_call_poke': [(1.0,)],
+    'c_declared': [(5.0,)],
+    's_early_return': [(1.0, [1.0, 2.0], [1.0, 2.0, 3.0]), (-1.0, [1.0, 2.0], [3.0, 4.0])],
+    's_early_return_assert': [(1.0, [1.0]), (-1.0, [1.0, 2.0])],
+}
